@@ -33,6 +33,8 @@ type PropCfg struct {
 	MasksPer  map[string]int // tier -> option masks per program
 	Evolve    bool           // build old/new schema pairs
 	NoProgs   bool           // the simulation needs no generated programs (iohelp only)
+	TextOnly  bool           // programs are used as schema text only; nothing is generated or compiled
+	RepoInstr map[string]instrument.Options
 	Params    map[string]map[string]int
 	Seeds     map[string][]uint64
 	Assume    []string
